@@ -979,6 +979,7 @@ func (c *FnCtx) next(x *ssa.Next) {
 	}
 	c.assume(c.curItems, sImp(okv.T, sAnd(sNot(sEq(m.T, "0")), sSel(sSel(c.arrIn(st, md), m.T), k.T), sEq(v.T, sSel(sSel(c.arrIn(st, mv), m.T), k.T)))))
 	c.note("map iteration: each step yields an arbitrary present key (order and repetition unconstrained)")
+	c.mapOrderObligation(x)
 	c.env[x] = &Bind{V: Val{Tup: []Val{okv, k, v}, GT: x.Type()}}
 }
 
